@@ -62,9 +62,15 @@ def _treat_expl_comment(block: ExplicitComment, bibtex_format: "BibtexFormat") -
 
 
 def _treat_failed_block(block: ParsingFailedBlock, bibtex_format: "BibtexFormat") -> List[str]:
-    lines = len(block.raw.splitlines())
+    raw = block.raw
+    if raw is None:
+        # Blocks which were not parsed from a text (e.g. a duplicate of blocks created in code)
+        #   have no raw text: write the block which caused the error instead, if there is one.
+        faulty_block = block.ignore_error_block
+        raw = "" if faulty_block is None else "".join(_treat_block(bibtex_format, faulty_block)).rstrip("\n")
+    lines = len(raw.splitlines())
     parsing_failed_comment = bibtex_format.parsing_failed_comment.format(n=lines)
-    return [parsing_failed_comment, "\n", block.raw, "\n"]
+    return [parsing_failed_comment, "\n", raw, "\n"]
 
 
 def _calculate_auto_value_align(library: Library) -> int:
